@@ -68,20 +68,24 @@ theorem decode_notok {t : Tables} {inp : Input} {c : Cfg} {a : Act}
 
 /-! ### `xstep` inversion -/
 
-theorem onError_not_cont {x : XTables} {inp : Input} {fin : Int} {st : Bool} {c c' : XCfg}
-    (hx : x.recovering = false) : onError x inp fin st c ≠ .cont c' := by
+theorem onError_eq {x : XTables} {inp : Input} {fin : Int} {st : Bool} {c : XCfg}
+    (hx : x.recovering = false) :
+    onError x inp fin st c =
+      .done (.syntaxError (c.fetch inp).2.off (c.fetch inp).2.endo) (c.fetch inp).1 := by
   unfold onError
   simp [hx]
 
-theorem onError_not_accept {x : XTables} {inp : Input} {fin : Int} {st : Bool} {c c' : XCfg} :
-    onError x inp fin st c ≠ .done .accept c' := by
-  unfold onError
-  split
-  · simp
-  · simp only
-    split
-    · simp
-    · split <;> simp
+theorem ite_ne' {α : Type} (c : Prop) [Decidable c] (a b v : α) (ha : a ≠ v) (hb : b ≠ v) :
+    (if c then a else b) ≠ v := by
+  split <;> assumption
+
+theorem onError_not_cont {x : XTables} {inp : Input} {fin : Int} {st : Bool} {c c' : XCfg}
+    (hx : x.recovering = false) : onError x inp fin st c ≠ .cont c' := by
+  rw [onError_eq hx]; simp
+
+theorem onError_not_accept {x : XTables} {inp : Input} {fin : Int} {st : Bool} {c c' : XCfg}
+    (hx : x.recovering = false) : onError x inp fin st c ≠ .done .accept c' := by
+  rw [onError_eq hx]; simp
 
 /-- the reduce branch of `xstep` after decoding -/
 def xreduce (x : XTables) (inp : Input) (endState : Int) (stopOnError : Bool) (c1 : XCfg) (rule : Int) : XStep :=
@@ -127,23 +131,24 @@ theorem xstep_eq (x : XTables) (inp : Input) (fin : Int) (st : Bool) (c : XCfg) 
       | none => .done .panic c
       | some (c1, .reduce rule) => xreduce x inp fin st c1 rule
       | some (c1, .shift q) => xshift x c1 q
-      | some (c1, .error) => onError x inp fin st
-          (if (x.cancellable && !x.t.optimized &&
+      | some (c1, .error) =>
+          if (x.cancellable && !x.t.optimized &&
                 (match geti x.t.action c1.state, c1.next with
                  | some a, some tk =>
                    if a = -1 then true
                    else if a < -2 then lalrLookup x.t a tk.sym == some (-1) else false
                  | _, _ => false)) = true
-           then { c1 with shiftCounter := c1.shiftCounter + 1 } else c1) := by
+          then onError x inp fin st { c1 with shiftCounter := c1.shiftCounter + 1 }
+          else onError x inp fin st c1 := by
   unfold xstep
   split
   · simp_all
   · rename_i c1 rule h; rw [h]; rfl
-  · rename_i c1 q h; rw [h]; simp [xshift]
-  · rename_i c1 h; rw [h]; simp only [ne_eq, not_true_eq_false, false_and, and_false, if_false]
-    split <;> rfl
+  · rename_i c1 q h; rw [h]; simp only [ne_eq, not_true_eq_false, false_and, and_false, if_false]; rfl
+  · rename_i c1 h; rw [h]; simp only [ne_eq, not_true_eq_false, false_and, and_false, if_false]; rfl
 
-theorem xreduce_not_accept {x : XTables} {inp : Input} {fin : Int} {st : Bool} {c1 c' : XCfg} {rule : Int} :
+theorem xreduce_not_accept {x : XTables} {inp : Input} {fin : Int} {st : Bool} {c1 c' : XCfg} {rule : Int}
+    (hx : x.recovering = false) :
     xreduce x inp fin st c1 rule ≠ .done .accept c' := by
   unfold xreduce
   split
@@ -152,24 +157,24 @@ theorem xreduce_not_accept {x : XTables} {inp : Input} {fin : Int} {st : Bool} {
     · simp
     · split
       · simp
-      · simp only
-        split
+      · split
         · simp
         · split
           · simp
           · split
-            · exact onError_not_accept
+            · exact onError_not_accept hx
             · simp
   · simp
 
-theorem xstep_not_accept {x : XTables} {inp : Input} {fin : Int} {st : Bool} {c c' : XCfg} :
+theorem xstep_not_accept {x : XTables} {inp : Input} {fin : Int} {st : Bool} {c c' : XCfg}
+    (hx : x.recovering = false) :
     xstep x inp fin st 0 c ≠ .done .accept c' := by
   rw [xstep_eq]
   split
   · simp
-  · exact xreduce_not_accept
+  · exact xreduce_not_accept hx
   · unfold xshift; split <;> simp
-  · exact onError_not_accept
+  · exact ite_ne' _ _ _ _ (onError_not_accept hx) (onError_not_accept hx)
 
 /-- the data of a successful reduce step -/
 structure XReduce (x : XTables) (inp : Input) (c1 c' : XCfg) (rule : Int) : Prop where
@@ -200,7 +205,6 @@ theorem xreduce_cont {x : XTables} {inp : Input} {fin : Int} {st : Bool} {c1 c' 
         split at h
         · cases h
         · rename_i evs endo' hap
-          simp only at h
           split at h
           · cases h
           · rename_i top rest hrest
@@ -220,7 +224,6 @@ theorem xreduce_cont {x : XTables} {inp : Input} {fin : Int} {st : Bool} {c1 c' 
         split at h
         · cases h
         · rename_i evs endo' hap
-          simp only at h
           split at h
           · cases h
           · rename_i top rest hrest
@@ -258,7 +261,7 @@ theorem xstep_cont {x : XTables} {inp : Input} {fin : Int} {st : Bool} {c c' : X
     · rename_i tk htk
       injection h with h
       exact ⟨q, tk, rfl, htk, h.symm⟩
-  · exact absurd h (onError_not_cont hx)
+  · exact absurd h (ite_ne' _ _ _ _ (onError_not_cont hx) (onError_not_cont hx))
 
 /-! ### forward computation of the core runtime -/
 
@@ -284,8 +287,9 @@ theorem apply_reduce_eq (t : Tables) (inp : Input) (c1 c2 : Cfg) (rule ln lhs : 
   simp only [hln, hlhs]
   rw [if_neg (by omega)]
   rcases hc2 with ⟨h0, hc2⟩ | ⟨h0, hc2⟩
-  · simp only [h0, if_true]
-    rw [h0, ← hc2] at *
+  · subst hc2
+    rw [h0] at hrest
+    simp only [h0, if_true]
     simp only [hrest, hq, if_neg hq1]
     exact ⟨_, _, rfl⟩
   · simp only [h0, if_false]
